@@ -1035,6 +1035,113 @@ fn run_enum(stride: usize, offset: usize) {
 
 fn json_str(s: &str) -> String { format!("\"{}\"", s.replace('\\', "\\\\").replace('"', "\\\"")) }
 
+
+// ---------------------------------------------------------------- parser of the Coq syntax the cases are printed in
+// (replay mode: a stored case - program, handler table, schedule - is run again on the implementation)
+#[derive(Debug, Clone)]
+enum Sx { Atom(String), App(Vec<Sx>), List(Vec<Sx>) }
+fn sx_tokens(s: &str) -> Vec<String> {
+    let mut out = vec![]; let mut cur = String::new();
+    for ch in s.chars() {
+        if "()[];,".contains(ch) { if !cur.is_empty() { out.push(std::mem::take(&mut cur)); } out.push(ch.to_string()); }
+        else if ch.is_whitespace() { if !cur.is_empty() { out.push(std::mem::take(&mut cur)); } }
+        else { cur.push(ch); }
+    }
+    if !cur.is_empty() { out.push(cur); }
+    out
+}
+// term := atom | '(' term+ [',' term+]* ')' | '[' (term+ (';' term+)*)? ']' ; a juxtaposition of terms is an application
+fn sx_seq(t: &[String], i: &mut usize, stops: &[&str]) -> Sx {
+    let mut items = vec![];
+    while *i < t.len() && !stops.contains(&t[*i].as_str()) {
+        match t[*i].as_str() {
+            "(" => { *i += 1; let mut parts = vec![sx_seq(t, i, &[")", ","])];
+                     while t[*i] == "," { *i += 1; parts.push(sx_seq(t, i, &[")", ","])); }
+                     *i += 1; items.push(if parts.len() == 1 { parts.pop().unwrap() } else { let mut v = vec![Sx::Atom("pair".into())]; v.extend(parts); Sx::App(v) }); }
+            "[" => { *i += 1; let mut elems = vec![];
+                     if t[*i] != "]" { elems.push(sx_seq(t, i, &["]", ";"])); while t[*i] == ";" { *i += 1; elems.push(sx_seq(t, i, &["]", ";"])); } }
+                     *i += 1; items.push(Sx::List(elems)); }
+            a => { items.push(Sx::Atom(a.to_string())); *i += 1; }
+        }
+    }
+    if items.len() == 1 { items.pop().unwrap() } else { Sx::App(items) }
+}
+fn sx_parse(s: &str) -> Sx { let t = sx_tokens(s); let mut i = 0; sx_seq(&t, &mut i, &[]) }
+impl Sx {
+    fn head(&self) -> (&str, &[Sx]) { match self { Sx::Atom(a) => (a.as_str(), &[]), Sx::App(v) => match &v[0] { Sx::Atom(a) => (a.as_str(), &v[1..]), _ => panic!("head {:?}", self) }, _ => panic!("head {:?}", self) } }
+    fn n(&self) -> u64 { match self { Sx::Atom(a) => a.parse().unwrap_or_else(|_| panic!("number {:?}", a)), _ => panic!("number {:?}", self) } }
+    fn list(&self) -> &[Sx] { match self { Sx::List(v) => v, _ => panic!("list {:?}", self) } }
+}
+fn p_expr(x: &Sx) -> Expr { let (h, a) = x.head(); match h { "K" => Expr::K(a[0].n()), "V" => Expr::V(a[0].n() as usize), "Plus" => Expr::Plus(Box::new(p_expr(&a[0])), Box::new(p_expr(&a[1]))), _ => panic!("expr {}", h) } }
+fn p_task(x: &Sx) -> Task {
+    let (h, a) = x.head(); let b = |i: usize| Box::new(p_task(&a[i]));
+    match h {
+        "TRet" => Task::Ret,
+        "TEmit" => Task::Emit(a[0].n(), p_expr(&a[1]), b(2)),
+        "TNotify" => Task::Notify(a[0].n(), p_expr(&a[1]), b(2)),
+        "TReq" => Task::Req(a[0].n(), p_expr(&a[1]), a[2].n() as usize, b(3)),
+        "TForEach" => Task::ForEach(a[0].n(), p_expr(&a[1]), a[2].n() as usize, b(3), b(4)),
+        "TSpawn" => Task::Spawn(b(0), a[1].n() as usize, b(2)),
+        "TJoin" => Task::Join(a[0].n() as usize, b(1)),
+        "TAbortT" => Task::AbortT(a[0].n() as usize, b(1)),
+        "TYield" => Task::Yield(a[0].n(), b(1)),
+        "TAbortC" => Task::AbortC(a[0].n(), b(1)),
+        "TLegReq" => Task::LegReq(a[0].n(), p_expr(&a[1]), a[2].n() as usize, b(3)),
+        "TBoth" => Task::Both(a[0].n(), p_expr(&a[1]), a[2].n() as usize, a[3].n(), p_expr(&a[4]), a[5].n() as usize, b(6)),
+        "TBothL" => Task::BothL(a[0].n(), p_expr(&a[1]), a[2].n() as usize, a[3].n(), p_expr(&a[4]), a[5].n() as usize, b(6)),
+        "TRace" => Task::Race(a[0].n(), p_expr(&a[1]), a[2].n(), p_expr(&a[3]), a[4].n() as usize, b(5)),
+        _ => panic!("task {}", h),
+    }
+}
+fn p_rb(x: &Sx) -> Rb { let (h, a) = x.head(); match h { "RbReq" => Rb::Req(a[0].n(), p_expr(&a[1])), "RbMap" => Rb::Map(Box::new(p_rb(&a[0])), a[1].n()), "RbThenReq" => Rb::ThenReq(Box::new(p_rb(&a[0])), a[1].n()), _ => panic!("rb {}", h) } }
+fn p_sb(x: &Sx) -> Sb { let (h, a) = x.head(); match h { "SbStr" => Sb::Str(a[0].n(), p_expr(&a[1])), "SbMap" => Sb::Map(Box::new(p_sb(&a[0])), a[1].n()), "SbThenReq" => Sb::ThenReq(Box::new(p_sb(&a[0])), a[1].n()),
+    "SbOfReq" => Sb::OfReq(Box::new(p_rb(&a[0])), a[1].n()), "SbThenStr" => Sb::ThenStr(Box::new(p_sb(&a[0])), a[1].n()), _ => panic!("sb {}", h) } }
+fn p_cmd(x: &Sx) -> Cmd {
+    let (h, a) = x.head(); let b = |i: usize| Box::new(p_cmd(&a[i]));
+    match h {
+        "c_done" => Cmd::New(Task::Ret, vec![]),
+        "CNew" => Cmd::New(p_task(&a[0]), a[1].list().iter().map(p_task).collect()),
+        "CThen" => Cmd::Then(b(0), b(1)), "CAnd" => Cmd::And(b(0), b(1)),
+        "CAll" => Cmd::All(a[0].list().iter().map(p_cmd).collect()),
+        "CMapEff" => Cmd::MapEff(a[0].n(), b(1)), "CMapEv" => Cmd::MapEv(a[0].n(), b(1)),
+        "CIdEff" => Cmd::IdEff(b(0)), "CIdEv" => Cmd::IdEv(b(0)), "CInto" => Cmd::Into(b(0)),
+        "CAbortable" => Cmd::Abortable(a[0].n(), b(1)),
+        "CSendR" => Cmd::SendR(p_rb(&a[0]), a[1].n()), "CSendS" => Cmd::SendS(p_sb(&a[0]), a[1].n()),
+        _ => panic!("cmd {}", h),
+    }
+}
+fn p_action(x: &Sx) -> Action {
+    let (h, a) = x.head();
+    match h {
+        "AEffects" => Action::Effects, "AEvents" => Action::Events, "AIsDone" => Action::IsDone, "ALive" => Action::Live,
+        "AResolve" => Action::Resolve(a[0].n(), a[1].n(), a[2].n(), a[3].n()), "ADropReq" => Action::DropReq(a[0].n(), a[1].n(), a[2].n()),
+        "AAbort" => Action::Abort(a[0].n()), "AEvent" => Action::Event(a[0].n(), a[1].n()), "ASpawn" => Action::Spawn(p_task(&a[0])),
+        _ => panic!("action {}", h),
+    }
+}
+fn names_of(c: &Cmd, out: &mut Vec<u64>) {
+    match c { Cmd::Abortable(n, c) => { out.push(*n); names_of(c, out) }
+              Cmd::Then(a, b) | Cmd::And(a, b) => { names_of(a, out); names_of(b, out) }
+              Cmd::All(cs) => for c in cs { names_of(c, out) },
+              Cmd::MapEff(_, c) | Cmd::MapEv(_, c) | Cmd::IdEff(c) | Cmd::IdEv(c) | Cmd::Into(c) => names_of(c, out),
+              _ => {} }
+}
+// rt_run <seed> 0 '' replay <host> <prog> <handlers> <acts> : prints the implementation's observations
+fn run_replay(args: &[String]) {
+    let (host, prog, hs, acts) = (&args[5], &args[6], &args[7], &args[8]);
+    let acts: Vec<Action> = sx_parse(acts).list().iter().map(p_action).collect();
+    let mut rng = Rng::new(1);
+    let obs = if host == "core" {
+        let hs: Vec<(u64, Cmd)> = sx_parse(hs).list().iter().map(|p| { let (_, a) = p.head(); (a[0].n(), p_cmd(&a[1])) }).collect();
+        let mut names = vec![]; for (_, c) in &hs { names_of(c, &mut names); }
+        run_core(&hs, &mut rng, &names, 0, Some(&acts)).1
+    } else {
+        let c = p_cmd(&sx_parse(prog)); let mut names = vec![]; names_of(&c, &mut names);
+        run_direct(&c, &mut rng, &names, 0, Some(&acts), false).1
+    };
+    println!("{}", coq_list(obs));
+}
+
 fn main() {
     std::panic::set_hook(Box::new(|_| {}));
     let args: Vec<String> = std::env::args().collect();
@@ -1043,6 +1150,7 @@ fn main() {
     let only: Option<usize> = args.get(3).and_then(|s| s.parse().ok());
     let mode: String = args.get(4).cloned().unwrap_or_else(|| "mix".into());
     if mode == "enum" { run_enum(count.max(1), seed as usize); return; }
+    if mode == "replay" { run_replay(&args); return; }
     if mode == "mix" && only.is_none() {
         // fixed witness of a recorded finding (KNOWN_FINDINGS.txt, class flat_task_never_evicted): then_stream on a
         // stream keeps the task's waker inside flatten_unordered, so when the one-shot request upstream of it is
